@@ -145,10 +145,15 @@ func (s *Schema) Rels() []Rel {
 		rels = append(rels, rel)
 	}
 
+	// Sort by type name first and then by relationship name. The pair is
+	// unique for each listed relationship, so the order is total and does
+	// not depend on the iteration order of the map.
 	sort.Slice(rels, func(i, j int) bool {
-		name1 := rels[i].FromType + rels[i].FromName
-		name2 := rels[j].FromType + rels[j].FromName
-		return name1 < name2
+		if rels[i].FromType != rels[j].FromType {
+			return rels[i].FromType < rels[j].FromType
+		}
+
+		return rels[i].FromName < rels[j].FromName
 	})
 
 	return rels
